@@ -100,7 +100,7 @@ def run_l2(run, cases, l1_trace_path, ngraphs, nfamilies):
     ok = [c for c in cases if loads.get(c["id"], {}).get("load", {}).get("outcome") == "Ok"]
     graphs = [c for c in ok if c["family"] == "fk-graph"]
     # formatted variables need typed values (dates, decimals): that family is decided at L1 (the recorded formatter), C18 renders formatters
-    fams = [c for c in ok if c["family"] not in ("fk-graph", "fk-formatters")]
+    fams = [c for c in ok if c["family"] not in ("fk-graph", "fk-formatters") and "/" not in c["family"]]
     graphs = graphs if len(graphs) <= ngraphs else rng.sample(graphs, ngraphs)
     first = [c for c in fams if c["family"] != "fk-fallback"]
     fb = [c for c in fams if c["family"] == "fk-fallback"]
@@ -178,6 +178,14 @@ def gen(run):
     if mut["violated"] != "FinalIsSubst":
         raise vp.ToolError("spec mutant MC_Fk_asimpl was not detected by TLC")
     fams, res2 = loadfam.gen_cases(run, "MC_FkFamilies", "MC_FkFamilies.cfg" if run.tier == "quick" else "MC_FkFamilies_thorough.cfg", workers=1)
+    # the same families with the references written loosely (blanks wherever they are allowed) and without any blank: the meaning
+    # of a reference does not depend on its spelling (L1 only: the abstract cases are the same)
+    for cfg, tag in (("MC_FkFamilies_loose.cfg", "loose"), ("MC_FkFamilies_nosp.cfg", "nosp")):
+        more, _ = loadfam.gen_cases(run, "MC_FkFamilies", cfg, name="MC_FkFamilies/" + cfg, workers=1)
+        for c in more:
+            if c["family"] != "fk-arm-shapes":
+                c["family"] = c["family"] + "/" + tag
+                fams.append(c)
     return graphs, fams
 
 
